@@ -112,32 +112,64 @@ class Atoms:
         return ('unk',)
 
 
-def literals(f, truth):
-    """list of literals that must hold when formula f has value `truth`; [] = no information;
-    None = impossible"""
+def _atoms_of(f, acc):
+    k = f[0]
+    if k == 'lit':
+        acc.add(('lit', f[1]))
+    elif k == 'tok':
+        acc.add(('tok', f[1], f[2]))
+    elif k == 'not':
+        _atoms_of(f[1], acc)
+    elif k in ('and', 'or'):
+        for g in f[1]:
+            _atoms_of(g, acc)
+    elif k == 'unk':
+        acc.add(('unk', id(f)))
+    return acc
+
+
+def _eval(f, env):
     k = f[0]
     if k == 'const':
-        return [] if f[1] == truth else None
+        return f[1]
     if k == 'lit':
-        return [('lit', f[1], f[2] == truth)]
+        return env[('lit', f[1])] == f[2]
     if k == 'tok':
-        return [('tok', f[1], f[2], f[3] == truth)]
+        return env[('tok', f[1], f[2])] == f[3]
     if k == 'not':
-        return literals(f[1], not truth)
-    if (k == 'and' and truth) or (k == 'or' and not truth):
-        out = []
-        for g in f[1]:
-            l = literals(g, truth)
-            if l is None:
-                return None
-            out += l
-        return out
-    if k in ('and', 'or'):
-        # a disjunction holds / a conjunction fails: information only if one operand
-        if len(f[1]) == 1:
-            return literals(f[1][0], truth)
+        return not _eval(f[1], env)
+    if k == 'and':
+        return all(_eval(g, env) for g in f[1])
+    if k == 'or':
+        return any(_eval(g, env) for g in f[1])
+    return env[('unk', id(f))]
+
+
+def literals(f, truth):
+    """the literals entailed by `formula f has value truth` (exact, by enumeration over the atoms of
+    f; unknown sub-expressions are free booleans); [] = no information; None = impossible"""
+    atoms = sorted(_atoms_of(f, set()), key=repr)
+    if len(atoms) > 10:
         return []
-    return []
+    sat = []
+    for bits in range(1 << len(atoms)):
+        env = {a: bool(bits >> i & 1) for i, a in enumerate(atoms)}
+        if _eval(f, env) == truth:
+            sat.append(env)
+    if not sat:
+        return None
+    out = []
+    for a in atoms:
+        if a[0] == 'unk':
+            continue
+        vals = set(e[a] for e in sat)
+        if len(vals) == 1:
+            v = vals.pop()
+            if a[0] == 'lit':
+                out.append(('lit', a[1], v))
+            else:
+                out.append(('tok', a[1], a[2], v))
+    return out
 
 
 def apply_literals(facts, lits):
@@ -244,7 +276,8 @@ def freeze(facts):
     return frozenset(facts.items())
 
 
-def search(cfg, start, facts0, target, cut_nodes, atoms, cut_edge=None, on_node=None, nonempty_iter=None):
+def search(cfg, start, facts0, target, cut_nodes, atoms, cut_edge=None, on_node=None, nonempty_iter=None,
+           accept=None):
     """Is `target` reachable from CFG node `start` (start's out-edges are taken first) along a
     path that (a) never enters a node of cut_nodes, (b) never takes an edge for which
     cut_edge(node, label, facts) is true, (c) is consistent with the facts collected from the test
@@ -280,6 +313,8 @@ def search(cfg, start, facts0, target, cut_nodes, atoms, cut_edge=None, on_node=
                 continue
             p2 = path + [(node, lab)]
             if t is target:
+                return p2 + [(t, None)]
+            if accept is not None and accept(t, f2):
                 return p2 + [(t, None)]
             f3 = f2
             if on_node is not None:
